@@ -806,22 +806,23 @@ def RState.flags (st : RState) : List Bool := st.blocks.map (·.isSetup)
 structure RState.LastOk (st : RState) : Prop where
   cur : st.cur.isSetup = true → st.lastSetup.isSome = true
   prods : st.products ≠ [] → st.lastSetup.isSome = true
+  fin : st.final ≠ [] → st.lastSetup.isSome = true
   idx : ∀ i, st.lastSetup = some i → st.flags[i]? = some true
 
 theorem flags_pushLine (st : RState) (k : LKind) (t : Str) : (pushLine st k t).flags = st.flags := by
   simp [RState.flags, RState.blocks, pushLine]
 
-theorem lastOk_init : (({} : RState)).LastOk := ⟨by simp, by simp, by simp⟩
+theorem lastOk_init : (({} : RState)).LastOk := ⟨by simp, by simp, by simp, by simp⟩
 
 theorem lastOk_pushLine {st : RState} (h : st.LastOk) (k : LKind) (t : Str) : (pushLine st k t).LastOk :=
-  ⟨by simpa [pushLine] using h.cur, by simpa [pushLine] using h.prods, by
+  ⟨by simpa [pushLine] using h.cur, by simpa [pushLine] using h.prods, by simpa [pushLine] using h.fin, by
     intro i hi; rw [flags_pushLine]; exact h.idx i (by simpa [pushLine] using hi)⟩
 
 theorem lastOk_openSetup {st : RState} (h : st.LastOk) :
     (openSetup st).LastOk ∧ (openSetup st).lastSetup.isSome = true := by
   unfold openSetup
   split
-  · refine ⟨⟨by simp, by simp, ?_⟩, by simp⟩
+  · refine ⟨⟨by simp, by simp, by simp, ?_⟩, by simp⟩
     intro i hi
     simp only [Option.some.injEq] at hi
     subst hi
@@ -834,7 +835,7 @@ theorem lastOk_openOther {st : RState} (h : st.LastOk) : (openOther st).LastOk :
   unfold openOther
   split
   · rename_i hc
-    refine ⟨by simp, by simpa using h.prods, ?_⟩
+    refine ⟨by simp, by simpa using h.prods, by simpa using h.fin, ?_⟩
     intro i hi
     have := h.idx i (by simpa using hi)
     simp only [RState.flags, RState.blocks, List.map_append, List.map_cons, List.map_nil] at this ⊢
@@ -848,15 +849,15 @@ theorem lastOk_step {st : RState} (h : st.LastOk) (c : Classified) : (step st c)
   cases c with
   | blank raw => exact lastOk_pushLine h _ _
   | eups t =>
-    obtain ⟨h1, _⟩ := lastOk_openSetup h
-    exact ⟨h1.cur, h1.prods, h1.idx⟩
+    obtain ⟨h1, h2⟩ := lastOk_openSetup h
+    exact ⟨h1.cur, h1.prods, fun _ => h2, h1.idx⟩
   | setup t p =>
     obtain ⟨h1, h2⟩ := lastOk_openSetup h
     cases p with
     | none => exact lastOk_pushLine h1 _ _
     | some p =>
       refine lastOk_pushLine (st := { openSetup st with products := (openSetup st).products ++ [p] }) ?_ _ _
-      exact ⟨h1.cur, fun _ => h2, h1.idx⟩
+      exact ⟨h1.cur, fun _ => h2, h1.fin, h1.idx⟩
   | other t => exact lastOk_pushLine (lastOk_openOther h) _ _
 
 theorem lastOk_foldl (cs : List Classified) {st : RState} (h : st.LastOk) : (cs.foldl step st).LastOk := by
@@ -1331,5 +1332,371 @@ theorem covered_of_data {d : AnswerData} {o : Opts} {lines : List Str} (h : d.co
   · have : o.toplevel = some n := by simpa using htop
     exact absurd this hne
   · exact ⟨p, hp, x, hx, by simpa using hxn⟩
+
+
+/-! ## text level: the exact branch of the rendered table -/
+
+/-- The lines of the (first) exact branch of a table text: what stands between the first line that reads
+`if (type == exact) {` and the next line that reads `} else {` (white space around the lines ignored). -/
+def takeUntilElse : List Str → List Str
+  | [] => []
+  | l :: rest => if strip l == sElse then [] else l :: takeUntilElse rest
+
+def exactBranchText : List Str → List Str
+  | [] => []
+  | l :: rest => if strip l == sIfExact then takeUntilElse rest else exactBranchText rest
+
+theorem dropWhile_idem (p : Nat → Bool) (l : List Nat) : (l.dropWhile p).dropWhile p = l.dropWhile p := by
+  induction l with
+  | nil => rfl
+  | cons a rest ih =>
+    by_cases h : p a = true
+    · simp [List.dropWhile_cons, h, ih]
+    · simp [List.dropWhile_cons, h]
+
+theorem rstrip_idem (x : Str) : rstrip (rstrip x) = rstrip x := by
+  simp [rstrip, dropWhile_idem]
+
+theorem dropWhile_append_single {p : Nat → Bool} {a : Nat} (h : p a = false) (xs : List Nat) :
+    ∃ ys, (xs ++ [a]).dropWhile p = ys ++ [a] := by
+  induction xs with
+  | nil => exact ⟨[], by simp [List.dropWhile_cons, h]⟩
+  | cons x xs ih =>
+    by_cases hx : p x = true
+    · obtain ⟨ys, hys⟩ := ih
+      exact ⟨ys, by simp [List.dropWhile_cons, hx, hys]⟩
+    · exact ⟨x :: xs, by simp [List.dropWhile_cons, hx]⟩
+
+theorem rstrip_cons_of_not_space {a : Nat} {rest : Str} (h : Str.isSpace a = false) : ∃ r, rstrip (a :: rest) = a :: r := by
+  obtain ⟨ys, hys⟩ := dropWhile_append_single h rest.reverse
+  exact ⟨ys.reverse, by simp [rstrip, hys]⟩
+
+theorem lstrip_head (s : Str) : lstrip s = [] ∨ ∃ a r, lstrip s = a :: r ∧ Str.isSpace a = false := by
+  induction s with
+  | nil => exact .inl rfl
+  | cons c cs ih =>
+    by_cases h : Str.isSpace c = true
+    · simpa [lstrip, List.dropWhile_cons, h] using ih
+    · exact .inr ⟨c, cs, by simp [lstrip, List.dropWhile_cons, h], by simpa using h⟩
+
+theorem lstrip_cons_of_not_space {a : Nat} {r : Str} (h : Str.isSpace a = false) : lstrip (a :: r) = a :: r := by
+  simp [lstrip, List.dropWhile_cons, h]
+
+theorem strip_idem (s : Str) : strip (strip s) = strip s := by
+  unfold strip
+  rcases lstrip_head s with h | ⟨a, r, h, ha⟩
+  · rw [h]; rfl
+  · rw [h]
+    obtain ⟨r', hr'⟩ := rstrip_cons_of_not_space (rest := r) ha
+    rw [hr', lstrip_cons_of_not_space ha, ← hr', rstrip_idem]
+
+theorem strip_cons_of_not_space {a : Nat} {rest : Str} (h : Str.isSpace a = false) : ∃ r, strip (a :: rest) = a :: r := by
+  unfold strip
+  rw [lstrip_cons_of_not_space h]
+  exact rstrip_cons_of_not_space h
+
+theorem lstrip_replicate_append (n : Nat) (s : Str) : lstrip (List.replicate n cSp ++ s) = lstrip s := by
+  induction n with
+  | zero => rfl
+  | succ n ih =>
+    have : Str.isSpace cSp = true := by decide
+    simpa [lstrip, List.replicate_succ, List.dropWhile_cons, this] using ih
+
+theorem strip_indent (ind : Int) (s : Str) : strip (indentStr ind ++ s) = strip s := by
+  unfold strip indentStr
+  rw [lstrip_replicate_append]
+
+theorem sIfExact_eq : sIfExact = [105, 102, 32, 40, 116, 121, 112, 101, 32, 61, 61, 32, 101, 120, 97, 99, 116, 41, 32, 123] := by decide
+
+theorem preExactAt_lit (w : Str) : preExactAt (sIfExact ++ w) = true := by
+  rw [sIfExact_eq]
+  simp [preExactAt, lstrip, List.isPrefixOf, List.dropWhile, Str.isSpace, Str.ofString, cLbrace]
+
+theorem preExactRe_append (w s : Str) (h : preExactRe s = true) : preExactRe (w ++ s) = true := by
+  induction w with
+  | nil => exact h
+  | cons c cs ih => simp [preExactRe, ih]
+
+/-- a line that reads `if (type == exact) {` matches the expander's own pattern for a pre-existing exact block -/
+theorem preExactRe_of_strip {t : Str} (h : strip t = sIfExact) : preExactRe t = true := by
+  have h1 : t = t.takeWhile Str.isSpace ++ lstrip t := by simp [lstrip, List.takeWhile_append_dropWhile]
+  have h2 : lstrip t = rstrip (lstrip t) ++ ((lstrip t).reverse.takeWhile Str.isSpace).reverse := by
+    have := List.takeWhile_append_dropWhile (p := Str.isSpace) (l := (lstrip t).reverse)
+    have h3 := congrArg List.reverse this
+    simp only [List.reverse_append, List.reverse_reverse] at h3
+    simpa [rstrip] using h3.symm
+  have h3 : strip t = rstrip (lstrip t) := rfl
+  rw [h1, h2, ← h3, h]
+  apply preExactRe_append
+  have := preExactAt_lit ((lstrip t).reverse.takeWhile Str.isSpace).reverse
+  rw [sIfExact_eq] at this ⊢
+  simp only [List.cons_append, preExactRe, Bool.or_eq_true]
+  exact .inl this
+
+theorem takeUntilElse_split (mid post : List Str) (e : Str) (hmid : ∀ l ∈ mid, strip l ≠ sElse) (he : strip e = sElse) :
+    takeUntilElse (mid ++ e :: post) = mid := by
+  induction mid with
+  | nil => simp [takeUntilElse, he]
+  | cons m rest ih =>
+    have hm : (strip m == sElse) = false := by simpa using hmid m (by simp)
+    simp [takeUntilElse, hm, ih (fun l hl => hmid l (by simp [hl]))]
+
+theorem exactBranchText_split (pre mid post : List Str) (a e : Str) (hpre : ∀ l ∈ pre, strip l ≠ sIfExact)
+    (ha : strip a = sIfExact) (hmid : ∀ l ∈ mid, strip l ≠ sElse) (he : strip e = sElse) :
+    exactBranchText (pre ++ a :: (mid ++ e :: post)) = mid := by
+  induction pre with
+  | nil => simp [exactBranchText, ha, takeUntilElse_split mid post e hmid he]
+  | cons p rest ih =>
+    have hp : (strip p == sIfExact) = false := by simpa using hpre p (by simp)
+    simp [exactBranchText, hp, ih (fun l hl => hpre l (by simp [hl]))]
+
+theorem exactBranchText_none (ls : List Str) (h : ∀ l ∈ ls, strip l ≠ sIfExact) : exactBranchText ls = [] := by
+  induction ls with
+  | nil => rfl
+  | cons p rest ih =>
+    have hp : (strip p == sIfExact) = false := by simpa using h p (by simp)
+    simp [exactBranchText, hp, ih (fun l hl => h l (by simp [hl]))]
+
+/-- what can stand before the exact block: input lines and the frame of earlier setup blocks -/
+def PreItem (lines : List BLine) : Item → Prop
+  | .orig _ _ t => ∃ l ∈ lines, t = l.text ∨ t = strip l.text
+  | .gen _ t => t = sIfNotExact ∨ t = sClose
+  | _ => False
+
+theorem PreItem_mono {ls ls' : List BLine} (h : ∀ l ∈ ls, l ∈ ls') {x : Item} (hx : PreItem ls x) : PreItem ls' x := by
+  cases x with
+  | orig i k t => obtain ⟨l, hl, ht⟩ := hx; exact ⟨l, h l hl, ht⟩
+  | gen i t => exact hx
+  | pin i o n v => exact hx
+  | fin t => exact hx
+
+theorem emitPlain_pre (ind : Int) (ls : List BLine) : ∀ x ∈ (emitPlain ind ls).1, PreItem ls x := by
+  intro x hx
+  unfold emitPlain at hx
+  split at hx
+  · simp at hx
+  · rename_i l rest
+    have key : ∀ (f : BLine → Int) (sub : List BLine), (∀ y ∈ sub, y ∈ l :: rest) →
+        ∀ x ∈ sub.map (fun y => Item.orig (f y) y.kind y.text), PreItem (l :: rest) x := by
+      intro f sub hsub x hx
+      simp only [List.mem_map] at hx
+      obtain ⟨y, hy, rfl⟩ := hx
+      exact ⟨y, hsub y hy, .inl rfl⟩
+    split at hx
+    · simp only [List.mem_cons] at hx
+      rcases hx with rfl | hx
+      · exact ⟨l, by simp, .inl rfl⟩
+      · exact key (fun _ => ind + 1) rest (fun y hy => by simp [hy]) x hx
+    · split at hx
+      · simp only [List.mem_cons] at hx
+        rcases hx with rfl | hx
+        · exact ⟨l, by simp, .inl rfl⟩
+        · exact key (fun _ => ind - 1) rest (fun y hy => by simp [hy]) x hx
+      · exact key (fun _ => ind) (l :: rest) (fun y hy => hy) x hx
+
+theorem emitSetupLines_pre (ind : Int) (ls : List BLine) : ∀ x ∈ emitSetupLines ind ls, PreItem ls x := by
+  intro x hx
+  induction ls using emitSetupLines.induct ind with
+  | case1 => simp [emitSetupLines] at hx
+  | case2 l t h => simp [emitSetupLines, t, h] at hx
+  | case3 l t h1 h2 => simp [emitSetupLines, t, h1, h2] at hx
+  | case4 l t h1 h2 =>
+    simp [emitSetupLines, t, h1, h2] at hx; subst hx
+    exact ⟨l, by simp, .inr rfl⟩
+  | case5 l l2 rest ih =>
+    simp only [emitSetupLines, List.mem_append] at hx
+    rcases hx with hx | hx
+    · split at hx
+      · simp at hx
+      · simp at hx; subst hx; exact ⟨l, by simp, .inr rfl⟩
+    · exact PreItem_mono (fun y hy => by simp [hy]) (ih hx)
+
+theorem emitSetup_false_pre (o : Opts) (c : CState) (ind : Int) (ls : List BLine) :
+    ∀ x ∈ emitSetup o false c ind ls, PreItem ls x := by
+  intro x hx
+  unfold emitSetup at hx
+  split at hx
+  · simp only [Bool.false_eq_true, if_false, List.mem_append, List.mem_singleton] at hx
+    rcases hx with (rfl | hx) | rfl
+    · exact .inl rfl
+    · exact emitSetupLines_pre _ _ x hx
+    · exact .inr rfl
+  · exact emitSetupLines_pre _ _ x hx
+
+/-- no block with an index other than `lastSetupBlock` writes anything but `PreItem`s -/
+theorem emitVisited_pre (o : Opts) (ls : Option Nat) (c : CState) (l : List Block) (k : Nat) (ind : Int)
+    (h : ∀ i, ls = some i → i < k) : ∀ x ∈ emitVisited o ls c ind (enumFrom k l), PreItem (l.flatMap (·.lines)) x := by
+  induction l generalizing k ind with
+  | nil => intro x hx; simp [enumFrom, emitVisited] at hx
+  | cons b rest ih =>
+    have hr := fun ind => ih (k + 1) ind (fun i hi => Nat.lt_succ_of_lt (h i hi))
+    have hk : (ls == some k) = false := by
+      cases ls with
+      | none => rfl
+      | some i => have := h i rfl; simp; omega
+    intro x hx
+    simp only [enumFrom] at hx
+    unfold emitVisited at hx
+    split at hx
+    · simp only [List.mem_append, hk] at hx
+      rcases hx with hx | hx
+      · exact PreItem_mono (fun y hy => by simp [hy]) (emitSetup_false_pre o c ind b.lines x hx)
+      · exact PreItem_mono (fun y hy => by simp [hy]) (hr _ x hx)
+    · simp only [List.mem_append] at hx
+      rcases hx with hx | hx
+      · exact PreItem_mono (fun y hy => by simp [hy]) (emitPlain_pre ind b.lines x hx)
+      · exact PreItem_mono (fun y hy => by simp [hy]) (hr _ x hx)
+
+/-- the output up to and including the last setup block -/
+theorem emitVisited_split (o : Opts) (c : CState) (l : List Block) (k i : Nat) (ind : Int) (b : Block)
+    (hki : k ≤ i) (hb : l[i - k]? = some b) (hs : b.isSetup = true) :
+    ∃ pre post ind', emitVisited o (some i) c ind (enumFrom k l) = pre ++ emitSetup o true c ind' b.lines ++ post ∧
+      ∀ x ∈ pre, PreItem (l.flatMap (·.lines)) x := by
+  induction l generalizing k ind with
+  | nil => simp at hb
+  | cons b0 rest ih =>
+    simp only [enumFrom]
+    by_cases hik : i = k
+    · subst hik
+      simp only [Nat.sub_self, List.getElem?_cons_zero, Option.some.injEq] at hb
+      subst hb
+      refine ⟨[], emitVisited o (some i) c ind (enumFrom (i + 1) rest), ind, ?_, by simp⟩
+      rw [emitVisited]
+      simp [hs]
+    · have hlt : k + 1 ≤ i := by omega
+      have hb' : rest[i - (k + 1)]? = some b := by
+        have : i - k = (i - (k + 1)) + 1 := by omega
+        rw [this, List.getElem?_cons_succ] at hb; exact hb
+      have hne : (some i == some k) = false := by simp [hik]
+      rw [emitVisited]
+      split
+      · obtain ⟨pre, post, ind', heq, hpre⟩ := ih (k + 1) ind hlt hb'
+        refine ⟨emitSetup o (some i == some k) c ind b0.lines ++ pre, post, ind', by simp [heq], ?_⟩
+        intro x hx
+        simp only [List.mem_append] at hx
+        rcases hx with hx | hx
+        · rw [hne] at hx
+          exact PreItem_mono (fun y hy => by simp [hy]) (emitSetup_false_pre o c ind b0.lines x hx)
+        · exact PreItem_mono (fun y hy => by simp [hy]) (hpre x hx)
+      · obtain ⟨pre, post, ind', heq, hpre⟩ := ih (k + 1) (emitPlain ind b0.lines).2 hlt hb'
+        refine ⟨(emitPlain ind b0.lines).1 ++ pre, post, ind', by simp [heq], ?_⟩
+        intro x hx
+        simp only [List.mem_append] at hx
+        rcases hx with hx | hx
+        · exact PreItem_mono (fun y hy => by simp [hy]) (emitPlain_pre ind b0.lines x hx)
+        · exact PreItem_mono (fun y hy => by simp [hy]) (hpre x hx)
+
+theorem strip_sIfExact : strip sIfExact = sIfExact := by decide
+theorem strip_sElse : strip sElse = sElse := by decide
+theorem strip_sIfNotExact_ne : strip sIfNotExact ≠ sIfExact := by decide
+theorem strip_sClose_ne : strip sClose ≠ sIfExact := by decide
+
+theorem render_pre_ne {lines : List BLine} (hl : ∀ l ∈ lines, preExactRe l.text = false) {x : Item}
+    (hx : PreItem lines x) : strip (renderItem x) ≠ sIfExact := by
+  cases x with
+  | orig i k t =>
+    obtain ⟨l, hmem, ht⟩ := hx
+    simp only [renderItem, strip_indent, strip_idem]
+    intro h
+    have hre : preExactRe l.text = true := by
+      rcases ht with rfl | rfl
+      · exact preExactRe_of_strip h
+      · rw [strip_idem] at h; exact preExactRe_of_strip h
+    rw [hl l hmem] at hre; cases hre
+  | gen i t =>
+    simp only [renderItem, strip_indent, strip_idem]
+    rcases hx with rfl | rfl
+    · exact strip_sIfNotExact_ne
+    · exact strip_sClose_ne
+  | pin i o n v => exact absurd hx id
+  | fin t => exact absurd hx id
+
+theorem cmdName_head (opt : Bool) : ∃ r, cmdName opt = 115 :: r := by
+  cases opt
+  · exact ⟨sSetupRequired.tail, by decide⟩
+  · exact ⟨sSetupOptional.tail, by decide⟩
+
+theorem render_pin_ne_else (ind : Int) (opt : Bool) (n v : Str) : strip (renderItem (.pin ind opt n v)) ≠ sElse := by
+  simp only [renderItem, strip_indent, strip_idem]
+  obtain ⟨r, hr⟩ := cmdName_head opt
+  have hsp : Str.isSpace 115 = false := by decide
+  obtain ⟨r', hr'⟩ := strip_cons_of_not_space (a := 115) (rest := r ++ [cLpar] ++ pad15 n ++ sJ ++ v ++ [cRpar]) hsp
+  have : pinText opt n v = 115 :: (r ++ [cLpar] ++ pad15 n ++ sJ ++ v ++ [cRpar]) := by simp [pinText, hr]
+  rw [this, hr']
+  have : sElse = 125 :: (Str.ofString " else {") := by decide
+  rw [this]
+  intro h; cases h
+
+
+theorem strip_render_gen_ifExact (ind : Int) : strip (renderItem (.gen ind sIfExact)) = sIfExact := by
+  simp only [renderItem, strip_indent, strip_idem]; exact strip_sIfExact
+
+theorem strip_render_gen_else (ind : Int) : strip (renderItem (.gen ind sElse)) = sElse := by
+  simp only [renderItem, strip_indent, strip_idem]; exact strip_sElse
+
+/-- **The exact branch of the text** the expander writes (read off the text alone: the lines between the first
+`if (type == exact) {` and the following `} else {`) consists of exactly the pin lines of `desiredProducts`; without a
+setup line in the table there is no such branch. -/
+theorem expand_exact_branch_text {A : Answers} {o : Opts} {lines : List Str} {items : List Item}
+    (h : expandItems A o lines = .ok items) (hn : noExactLine A o lines = true) (ha : o.addExactBlock = true) :
+    ∃ st c ind, readAll A o lines = .ok st ∧ collect A o st = .ok c ∧
+      exactBranchText (items.map renderItem) = if st.lastSetup.isSome then (pinItems ind c).map renderItem else [] := by
+  obtain ⟨st, c, vis, hr, hc, hv, rfl⟩ := expandItems_ok h
+  obtain ⟨cs, hcs, rfl⟩ := readAll_ok hr
+  have hnp := noPre_of_noExactLine hn hcs
+  rw [visit_noPre _ 0 hnp] at hv
+  cases hv
+  have hlo := lastOk_foldl cs lastOk_init
+  -- no stored line matches the pattern of a pre-existing exact block
+  have hlines : ∀ l ∈ (cs.foldl step {}).blocks.flatMap (·.lines), preExactRe l.text = false := by
+    intro l hl
+    have hmem : l ∈ (cs.foldl step {}).allLines := hl
+    rw [allLines_foldl, allLines_init, List.nil_append, List.mem_filterMap] at hmem
+    obtain ⟨cl, hcl, hb⟩ := hmem
+    unfold noExactLine at hn
+    simp only [hcs, List.all_eq_true] at hn
+    have := hn cl hcl
+    simpa [hb] using this
+  cases hls : (cs.foldl step {}).lastSetup with
+  | none =>
+    refine ⟨_, c, 0, hr, hc, ?_⟩
+    simp only [hls, Option.isSome_none, Bool.false_eq_true, if_false]
+    have hfin : c.final = [] := by
+      rw [collect_final hc]
+      have h1 : (cs.foldl step {}).final = [] := by
+        by_cases hf : (cs.foldl step {}).final = []
+        · exact hf
+        · have := hlo.fin hf; simp [hls] at this
+      have h2 : (cs.foldl step {}).products = [] := by
+        by_cases hp : (cs.foldl step {}).products = []
+        · exact hp
+        · have := hlo.prods hp; simp [hls] at this
+      simp [h1, h2]
+    apply exactBranchText_none
+    intro l hl
+    simp only [hfin, List.map_nil, List.append_nil, List.mem_map] at hl
+    obtain ⟨x, hx, rfl⟩ := hl
+    exact render_pre_ne hlines (emitVisited_pre o none c _ 0 0 (by simp) x hx)
+  | some i =>
+    obtain ⟨b, hb, hs⟩ := lastOk_block hlo hls
+    obtain ⟨pre, post, ind', heq, hpre⟩ := emitVisited_split o c _ 0 i 0 b (Nat.zero_le _) (by simpa using hb) hs
+    refine ⟨_, c, ind' + 1, hr, hc, ?_⟩
+    simp only [hls, Option.isSome_some, if_true]
+    rw [heq, (show emitSetup o true c ind' b.lines
+        = Item.gen ind' sIfExact :: (pinItems (ind' + 1) c ++ Item.gen ind' sElse :: (emitSetupLines (ind' + 1) b.lines ++ [Item.gen ind' sClose]))
+        by simp [emitSetup, ha])]
+    simp only [List.map_append, List.map_cons, List.append_assoc, List.cons_append]
+    apply exactBranchText_split
+    · intro l hl
+      simp only [List.mem_map] at hl
+      obtain ⟨x, hx, rfl⟩ := hl
+      exact render_pre_ne hlines (hpre x hx)
+    · exact strip_render_gen_ifExact ind'
+    · intro l hl
+      simp only [List.mem_map] at hl
+      obtain ⟨x, hx, rfl⟩ := hl
+      obtain ⟨n, v, _, rfl⟩ := mem_pinItems hx
+      exact render_pin_ne_else _ _ _ _
+    · exact strip_render_gen_else ind'
 
 end EupsModel.Expand
